@@ -445,13 +445,12 @@ func init() {
 		n := len(c15Rules)
 		// quick: every subset of at most 5 of the rules; thorough: all 2^n subsets
 		var order []int
-		if c.Thorough() {
-			order = make([]int, 1<<n)
-			for i := range order {
-				order[i] = i
+		{
+			maxSize := 5
+			if c.Thorough() {
+				maxSize = 8 // (all 2^n subsets were feasible for n <= 21 only)
 			}
-		} else {
-			for size := 0; size <= 5; size++ {
+			for size := 0; size <= maxSize; size++ {
 				enum.Combinations(n, size, func(sub []int) bool {
 					m := 0
 					for _, i := range sub {
@@ -544,6 +543,43 @@ func init() {
 				}
 			}
 		}
+		// domains that are public suffixes or single labels, wildcard-TLD domains of
+		// several labels: the whole list, and every rule alone, for hosts on, below
+		// and beside the listed domains
+		{
+			extra := []string{"co.uk##.p1", "com##.p2", "github.io##.p3", "lan##.p4", "maps.google.*##.m1", "a.b.shop.*##.m2", "mail.yandex.*,example.org##.m3", "github.io#@#.p3", "maps.google.*#@#.m1"}
+			hosts := []string{"co.uk", "www.google.co.uk", "example.com", "com", "user.github.io", "a.user.github.io", "github.io", "printer.lan", "lan", "maps.google.com", "www.maps.google.co.uk",
+				"google.com", "a.b.shop.com", "x.a.b.shop.co.uk", "b.shop.com", "mail.yandex.ru", "example.org", "other.net"}
+			lists := [][]string{extra}
+			for _, l := range extra {
+				lists = append(lists, []string{l})
+			}
+			for _, lines := range lists {
+				var parsed []*rules.CosmeticRule
+				for _, l := range lines {
+					r, err := rules.NewCosmeticRule(l, 1)
+					if err != nil {
+						panic(AlphabetRejected{Text: l, Err: err})
+					}
+					parsed = append(parsed, r)
+				}
+				ce := urlfilter.NewCosmeticEngine(stringStorage(joinLines(lines) + "\n"))
+				for _, h := range hosts {
+					for _, generic := range []bool{true, false} {
+						wantG, wantS := c15Reference(parsed, h, true, generic)
+						wg, ws := c15WrittenReference(lines, h, true, generic)
+						res := ce.Match(h, true, true, generic)
+						evals++
+						gotG, gotS := sortedSet(res.ElementHiding.Generic), sortedSet(res.ElementHiding.Specific)
+						if !eqStrings(gotG, wantG) || !eqStrings(gotS, wantS) || !eqStrings(wg, wantG) || !eqStrings(ws, wantS) {
+							c.Run.Violate(ev.Violation{Pred: "selectors-equal-reference", Sig: map[string]any{"rules": lines, "host": h, "generic": generic},
+								What:   fmt.Sprintf("CosmeticEngine.Match(%q, generic=%v) over %v: generic=%v specific=%v; CosmeticRule.Match over all rules gives generic=%v specific=%v; the domain lists as written give generic=%v specific=%v", h, generic, lines, gotG, gotS, wantG, wantS, wg, ws),
+								Replay: map[string]any{"corpus": true}})
+						}
+					}
+				}
+			}
+		}
 		cr, ch, cev := c15Corpus(c)
 		evals += cev
 		c.Run.Set("corpus_rules", cr)
@@ -552,7 +588,7 @@ func init() {
 		c.Run.Set("subsets", int64(limit))
 		c.Run.Set("evaluations", evals)
 		c.Run.Set("distinct_nontrivial", nontrivial)
-		c.Run.Set("rule", fmt.Sprintf("%s of %d element-hiding rules and exceptions (generic, negated, multi-domain, wildcard TLD, duplicate selectors, self-excluding domains) in two line orders x %d hostnames x all 8 flag triples, through CosmeticEngine.Match and Engine.GetCosmeticResult, against CosmeticRule.Match over all rules, which is itself compared with the domain lists as written in the rule texts; corpus layer: the element-hiding rules of the bundled lists against CosmeticRule.Match over all of them for a stride of recorded host names and rule domains; non-trivial = some host has a non-empty expected result", map[bool]string{false: "every subset of at most 5", true: "every subset"}[c.Thorough()], n, len(c15Hosts)))
+		c.Run.Set("rule", fmt.Sprintf("%s of %d element-hiding rules and exceptions (generic, negated, multi-domain, wildcard TLD, duplicate selectors, self-excluding domains) in two line orders x %d hostnames x all 8 flag triples, through CosmeticEngine.Match and Engine.GetCosmeticResult, against CosmeticRule.Match over all rules, which is itself compared with the domain lists as written in the rule texts; corpus layer: the element-hiding rules of the bundled lists against CosmeticRule.Match over all of them for a stride of recorded host names and rule domains; non-trivial = some host has a non-empty expected result", map[bool]string{false: "every subset of at most 5", true: "every subset of at most 8"}[c.Thorough()], n, len(c15Hosts)))
 		c.Run.Set("exhaustive", exhaustive)
 		c.Run.Assumption("result buckets are compared as sets of selectors")
 		c.Run.Assumption("CosmeticRule.Match is the definition of 'applies to the hostname'; it is itself compared with the domain list as written in the rule text (restricted wins, then permitted, wildcard TLD through the public suffix list)")
